@@ -61,7 +61,9 @@ var shareAlpha = []*big.Int{
 
 var estAlpha = []uint64{1, 2, 3, 1 << 32, 1<<63 - 1, 1 << 63, 1<<63 + 1, ^uint64(0) - 1, ^uint64(0)}
 
-func valAddr(i int) sdk.ValAddress { return sdk.ValAddress(bytes.Repeat([]byte{byte(0x11 * (i + 1))}, 20)) }
+func valAddr(i int) sdk.ValAddress {
+	return sdk.ValAddress(bytes.Repeat([]byte{byte(0x11 * (i + 1))}, 20))
+}
 
 var outsiderAddr = sdk.ValAddress(bytes.Repeat([]byte{0xEE}, 20))
 
